@@ -32,6 +32,15 @@ def rand_partitions(rng, n):
 
 def gen_frame_case(rng):
     pattern, desc = cl.rand_pattern(rng, cmax=5, kinds=['Circular', 'RadialGradient', 'BackgroundSubtraction', 'RadialGradientBackgroundSubtraction'])
+    if rng.integers(0, 5) == 0:
+        # a user template that is larger than its explicit search window (a ring well outside the window) and has no symmetry
+        cs_ = int(rng.integers(3, 6))
+        T = 4 * cs_ + int(rng.integers(1, 4))
+        yy_, xx_ = np.mgrid[0:T, 0:T]
+        rr_ = np.hypot(yy_ - T // 2, xx_ - T // 2)
+        t = (rr_ <= cs_ - 1.0).astype(float) - 0.5 * ((rr_ >= 1.4 * cs_) & (rr_ <= 1.9 * cs_)) * (1 + 0.3 * np.sin(np.arctan2(yy_ - T // 2, xx_ - T // 2)))
+        desc = {'kind': 'UserTemplate', 'template': t.tolist(), 'search': float(cs_)}
+        pattern = cl.pattern_from_desc(desc)
     c = pattern.get_crop_size()
     n = int(rng.integers(1, 9))
     tall = int(rng.integers(0, 3))
@@ -61,7 +70,7 @@ def gen_frame_case(rng):
     upsample = [False, False, True, 4][int(rng.integers(0, 4))]
     return dict(pattern=pattern, desc=desc, data=data, peaks=peaks, zs=zs, zk=zk, limit=limit, upsample=upsample,
                 parts=rand_partitions(rng, n), method=str(rng.choice(['fast', 'full'])), crop=str(rng.choice(['default', 'slicing'])), backend=backend,
-                prerun_radius=(float(desc['radius']) * 0.7 if rng.integers(0, 4) == 0 else None))
+                prerun_radius=(float(desc['radius']) * 0.7 if ('radius' in desc and rng.integers(0, 4) == 0) else None))
 
 
 def make_udf(c):
@@ -113,6 +122,13 @@ def frame_udf_failure(c):
 # ------------------------------------------------------------------------------------------------------------------
 def sparse_case(rng, shared_min):
     pattern, desc = cl.rand_pattern(rng, cmax=3, kinds=['Circular', 'RadialGradient', 'BackgroundSubtraction'])
+    if rng.integers(0, 3) == 0:
+        # a user template without any symmetry (a mirrored or transposed mask gives another correlation)
+        cs_ = int(rng.integers(2, 4))
+        ty, tx = int(rng.integers(3, 2 * cs_ + 2)), int(rng.integers(3, 2 * cs_ + 2))
+        t = np.round(rng.uniform(0, 1, size=(ty, tx)) * 8) / 8 + np.linspace(0, 1, ty)[:, None] + 2 * np.linspace(0, 1, tx)[None, :]
+        desc = {'kind': 'UserTemplate', 'template': t.tolist(), 'search': float(cs_)}
+        pattern = cl.pattern_from_desc(desc)
     c = pattern.get_crop_size()
     n = int(rng.integers(1, 4))
     fy, fx = int(rng.integers(8, 15)), int(rng.integers(8, 15))
